@@ -67,8 +67,10 @@ class VisitorModel:
             for c in walk_local(m):
                 if isinstance(c, ast.Call):
                     ch = attr_chain(c.func)
-                    if ch and len(ch) == 2 and ch[1].startswith("on_"):
-                        calls.append((ch[1], c))
+                    if ch and len(ch) >= 2 and ch[-1].startswith("on_"):
+                        # (`visitor.on_x_end(self)`; a receiver other than the parameter -- `self._visitor.on_x_end(self)` --
+                        # is still the class's end callback: who the receiver is, is R4.3 / R5.2 / R5.3's question)
+                        calls.append((ch[-1], c))
             self.finish[cname] = calls
         if not any(self.finish.values()):
             # the end callbacks are no longer issued by the state classes: who delivers which end callback for which kind of
